@@ -735,7 +735,9 @@ def pattern_i32_to_i32(context, tree, c0):
 
 
 @isa.pattern("reg", "I8TOI16(reg)", size=4)
+@isa.pattern("reg", "I8TOU16(reg)", size=4)
 @isa.pattern("reg", "I8TOI32(reg)", size=4)
+@isa.pattern("reg", "I8TOU32(reg)", size=4)
 def pattern_i8_to_i32(context, tree, c0):
     d = context.new_reg(RiscvRegister)
     context.emit(Slli(d, c0, 24))
@@ -744,6 +746,7 @@ def pattern_i8_to_i32(context, tree, c0):
 
 
 @isa.pattern("reg", "I16TOI32(reg)", size=4)
+@isa.pattern("reg", "I16TOU32(reg)", size=4)
 def pattern_i16_to_i32(context, tree, c0):
     d = context.new_reg(RiscvRegister)
     context.emit(Slli(d, c0, 16))
@@ -751,7 +754,6 @@ def pattern_i16_to_i32(context, tree, c0):
     return d
 
 
-@isa.pattern("reg", "I8TOU16(reg)", size=4)
 @isa.pattern("reg", "U8TOU16(reg)", size=4)
 @isa.pattern("reg", "U8TOI16(reg)", size=4)
 def pattern_8_to_16(context, tree, c0):
@@ -761,7 +763,6 @@ def pattern_8_to_16(context, tree, c0):
     return d
 
 
-@isa.pattern("reg", "I8TOU32(reg)", size=4)
 @isa.pattern("reg", "U8TOU32(reg)", size=4)
 @isa.pattern("reg", "U8TOI32(reg)", size=4)
 def pattern_8_to_32(context, tree, c0):
@@ -771,7 +772,6 @@ def pattern_8_to_32(context, tree, c0):
     return d
 
 
-@isa.pattern("reg", "I16TOU32(reg)", size=4)
 @isa.pattern("reg", "U16TOU32(reg)", size=4)
 @isa.pattern("reg", "U16TOI32(reg)", size=4)
 def pattern_16_to_32(context, tree, c0):
